@@ -11,6 +11,7 @@ CONSTANTS
   MaxClose = 1
   MaxDeliveryFail = 1
   Unbuffered = FALSE
+  Script <- NoScript
   RecordH = "off"
 INVARIANTS NoLostWakeup
 PROPERTIES NoLostWakeupLive NoDeadlockWhileDeliverable
